@@ -28,12 +28,10 @@ func fuCase(codec esgen.Codec, sh fuShape, variant string, key bool) *caseSpec {
 	c.Pos = len(c.Prefix)
 	total := (sh.middles + 1) * sh.fragSize
 	c.Class = fmt.Sprintf("never-ending-fu:%s:%dx%dB=%.1fMiB", variant, sh.middles+1, sh.fragSize, float64(total)/(1<<20))
-	for i, raw := range neverEndingFU(codec, sh.middles, sh.fragSize, 5000, 90000+probeStep, key, variant == "ended") {
-		note := ""
-		if i == 0 {
-			note = c.Class
-		}
-		c.Hostile = append(c.Hostile, mkPkt(rtp.ChannelVideo, raw, note))
+	c.FU = &fuRecipe{Middles: sh.middles, FragSize: sh.fragSize, Seq: 5000, TS: 90000 + probeStep, Key: key, Ended: variant == "ended"}
+	c.materialize()
+	if (sh.middles+1)*sh.fragSize > 1<<20 {
+		c.BoundScale = 8 // megabytes through demuxer, FLV and TS muxers: be patient on a loaded machine
 	}
 	switch variant {
 	case "abandoned-then-start-fragment":
@@ -48,18 +46,31 @@ func fuCase(codec esgen.Codec, sh fuShape, variant string, key bool) *caseSpec {
 func TestNeverEndingFragmentationUnits(t *testing.T) {
 	evid.Rule(ruleText)
 	shapes := []fuShape{{300, 1}, {60, 1400}, {84, 65000}} // the last one: 85 fragments of 65 000 bytes = 5.3 MiB under reassembly
+	// One unit of 301 x 65 000 bytes = 18.7 MiB per codec in the quick tier, as a KEY
+	// picture with ONE timestamp (no jump of the presentation timeline): ended, it
+	// becomes a single 18.7 MiB frame that lands in one FLV tag and one HLS
+	// segment; on odd seeds the abandoned variants carry it too.
+	huge := []fuShape{{300, 65000}}
 	if evid.Thorough() {
 		shapes = append(shapes, fuShape{2000, 3}, fuShape{128, 65500}, fuShape{257, 65500}) // 8 MiB and 16.1 MiB
+		huge = append(huge, fuShape{390, 65500}, fuShape{640, 65500})                       // 24.4 MiB and 40 MiB
 	}
 	for _, codec := range []esgen.Codec{esgen.H264, esgen.H265} {
-		for _, variant := range []string{"ended", "abandoned-then-start-fragment", "abandoned-then-single-nal"} {
-			codec, variant := codec, variant
+		for vi, variant := range []string{"ended", "abandoned-then-start-fragment", "abandoned-then-single-nal"} {
+			codec, variant, vi := codec, variant, vi
 			t.Run(codec.String()+"/"+variant, func(t *testing.T) {
 				t.Parallel()
 				for i, sh := range shapes {
 					evid.Eval(1)
 					c := fuCase(codec, sh, variant, i%2 == 0)
 					record(c, judge(t, "never-ending-fu", c), "never-ending-fu")
+				}
+				if variant == "ended" || (evid.Seed()+int64(vi))%2 == 0 || evid.Thorough() {
+					for _, sh := range huge {
+						evid.Eval(1)
+						c := fuCase(codec, sh, variant, true)
+						record(c, judge(t, "never-ending-fu-huge", c), "never-ending-fu")
+					}
 				}
 			})
 		}
